@@ -150,6 +150,16 @@ def boundary_cps(ctx, stride=None):
     return sorted(c for c in cps if 0 <= c < 0x110000 and not (0xD800 <= c <= 0xDFFF))
 
 
+def xa(ctx, alphabet, k=6):
+    """alphabet + code points that occur as literals in lines of the library source that changed since the model was
+    last validated against it (none on the unchanged tree): the search is steered towards what a change introduced"""
+    extra = [c for c in getattr(ctx, 'extra_cps', []) if c not in alphabet]
+    if len(extra) > k:
+        step = len(extra) / k
+        extra = [extra[int(i * step)] for i in range(k)]
+    return list(alphabet) + extra
+
+
 def long_strings(ctx, alphabet, count, lo=20, hi=300):
     """random LONG strings (the small-scope enumerations stop at a handful of characters; the theorems have no length
     bound, so the correspondence must not have an obvious one either): plain random, long runs of one character,
@@ -157,8 +167,10 @@ def long_strings(ctx, alphabet, count, lo=20, hi=300):
     rng = ctx.rng
     out = []
     filler = [0x61, 0x62, 0xE9, 0x65E5]
+    alphabet = xa(ctx, alphabet, 12)
+    special = [n + d for n in getattr(ctx, 'extra_nums', []) if 2 <= n <= 5000 for d in (-1, 0, 1, 2)]
     for k in range(count):
-        n = rng.randrange(lo, hi)
+        n = rng.choice(special) if special and k % 3 == 0 else rng.randrange(lo, hi)
         mode = k % 4
         if mode == 0:
             out.append([rng.choice(alphabet) for _ in range(n)])
